@@ -47,6 +47,9 @@ func c14symbols(t *testing.T) (syms []c14sym, textLo, textHi uintptr) {
 	}
 	seen := map[uintptr]bool{}
 	for _, s := range all {
+		if s.Size == 0 { // markers such as runtime.etext, not functions
+			continue
+		}
 		if elf.ST_TYPE(s.Info) != elf.STT_FUNC || uintptr(s.Value) < textLo || uintptr(s.Value) >= textHi || seen[uintptr(s.Value)] {
 			continue
 		}
@@ -350,6 +353,11 @@ func TestVerifC14Text(t *testing.T) {
 			nApply, lo, hi := textDiff()
 			imgApplied := image() == image0
 			// every changed byte must be inside the entry jump or inside the placeholder's own body
+			trampDist := trampSize // the placeholder's own body: up to the next symbol, whatever goom's scan says
+			if sy, ok := byAddr[trampAddr]; ok && tramp != nil && sy.dist < trampDist {
+				trampDist = sy.dist
+			}
+			strayDist := 0
 			stray := 0
 			if nApply > 0 {
 				cur := c14raw(textLo, int(textHi-textLo))
@@ -362,6 +370,9 @@ func TestVerifC14Text(t *testing.T) {
 						inTramp := tramp != nil && a >= trampAddr && a < trampAddr+uintptr(trampSize)
 						if !inEntry && !inTramp {
 							stray++
+						}
+						if !inEntry && inTramp && a >= trampAddr+uintptr(trampDist) {
+							strayDist++
 						}
 					}
 				}
@@ -396,8 +407,8 @@ func TestVerifC14Text(t *testing.T) {
 				syscall.Syscall(syscall.SYS_MPROTECT, p, ln, syscall.PROT_READ|syscall.PROT_EXEC)
 			}
 			_ = plo
-			out.Put(op.Idx, "apply=ok entry=%s unpatch=ok restored=%v lens=%d/%d | apply_ext=%s unpatch_ext=%s scribble=%v scr_hi=%d to_ok=%v n_patch=%d tramp_written=%d..%d n_apply=%d stray=%d stray_after=%d image_applied=%v image_after=%v pbase=%#x entry=%#x tramp=%#x trampsize=%d",
-				c14maskJump(after), restored, obLen, jbLen, applyExt, unpatchExt, scr, scrHi, toOK, nPatch, int64(plo)-int64(trampAddr), int64(phi)-int64(trampAddr), nApply, stray, strayAfter, imgApplied, image() == image0, pbase, entry, trampAddr, trampSize)
+			out.Put(op.Idx, "apply=ok entry=%s unpatch=ok restored=%v lens=%d/%d | apply_ext=%s unpatch_ext=%s scribble=%v scr_hi=%d to_ok=%v n_patch=%d tramp_written=%d..%d n_apply=%d stray=%d stray_after=%d image_applied=%v image_after=%v pbase=%#x entry=%#x tramp=%#x trampsize=%d trampdist=%d stray_dist=%d",
+				c14maskJump(after), restored, obLen, jbLen, applyExt, unpatchExt, scr, scrHi, toOK, nPatch, int64(plo)-int64(trampAddr), int64(phi)-int64(trampAddr), nApply, stray, strayAfter, imgApplied, image() == image0, pbase, entry, trampAddr, trampSize, trampDist, strayDist)
 		}
 	}
 	if n, _, _ := textDiff(); n != 0 {
